@@ -5,6 +5,7 @@ CONSTANTS
   FlagIgnored = FALSE
   CacheSetDefault = FALSE
   CacheNotUpdated = FALSE
+  EmbModeSticks = FALSE
   MaxKeys = 3
   MaxSteps = 6
   Emit = TRUE
